@@ -34,6 +34,26 @@ def strip_expr(e):
             return e
 
 
+def strip_refs(e):
+    """Peel only borrows / reborrows (no calls)."""
+    while True:
+        if e[0] == "ref":
+            e = e[1]
+        elif e[0] == "place" and not e[2]:
+            e = e[1]
+        elif e[0] == "cast":
+            e = e[2]
+        else:
+            return e
+
+
+def expr_const_str(e):
+    s = strip_refs(e)
+    if s[0] == "const":
+        return s[1].get("str")
+    return None
+
+
 def expr_calls(e, acc=None):
     """All ('call', ...) nodes inside an expression tree."""
     if acc is None:
